@@ -72,6 +72,12 @@ def run_c07(t, tier, res):
             if trainer.representable(h, enc):
                 k = t.draw(len(pws[i]) + 1)
                 pws[i] = pws[i][:k] + h + pws[i][k:]
+    if t.chance(1, 25):
+        # one very long run of a single class: segment lengths of four digits (D1204, A1000, O1001)
+        kind = t.draw(3)
+        n = t.choice([1000, 1001, 1204, 1999])
+        pws.append(("7" * n) if kind == 0 else ("ab" * (n // 2) + "c" * (n % 2)) if kind == 1 else ("!" * n))
+        res.stats["four_digit_segment_lengths"] += 1
     if opts["coverage"] == 0.0:
         opts["coverage"] = 0.5
     scratch.fresh_disk()
@@ -148,6 +154,13 @@ def run_c07(t, tier, res):
                 "variable": var, "on_disk": repr(pairs[:6]), "loaded": repr(got[:6]), "encoding": enc,
                 "first_difference": repr(next(((a, b) for a, b in zip(pairs, got) if a != b), (len(pairs), len(got))))})
             return
+    want_base = [(list(b["replacements"]), b["prob"]) for b in ref.base]
+    got_base = [(list(b["replacements"]), b["prob"]) for b in base]
+    if got_base != want_base:
+        k = next((i for i, (a, b) in enumerate(zip(want_base, got_base)) if a != b), min(len(want_base), len(got_base)))
+        res.violate("C07", "guesser_reads_base_structures_differently", {
+            "on_disk": repr(want_base[k:k + 1])[:300], "loaded": repr(got_base[k:k + 1])[:300], "structures": len(want_base)})
+        return
     # 2. scorer loader
     from lib_scorer.grammar_io import load_grammar as s_load
     from lib_scorer.pcfg_password_scorer import PCFGPasswordScorer
@@ -425,6 +438,10 @@ def run_c19(t, tier, res):
     if len(L) < 2:
         res.rejected = "tiny_list"
         return
+    if t.chance(1, 30):
+        # one password longer than any read buffer (plain it is one long line; as $HEX[] more than twice as long)
+        L.insert(t.draw(len(L) + 1), "".join(t.choice(["7", "3", "x", "Q"]) for _ in range(8)) * t.choice([5000, 8200, 8750]))
+        res.stats["lines_longer_than_65536_characters"] += 1
     wr = scratch.fresh_disk()
     if t.chance(1, 3):
         # --multiword FILE given to every variant (also together with --prefixcount): a plain word list whose words make
